@@ -377,6 +377,7 @@ func c13XHat(c *Ctx) {
 		wantB2 := "add(frombytes(?phi(" + low16 + "|bytes(x)))," + two127 + ")"
 		// 2^127 written as 1 << 127, and the sum written in either order
 		got = strings.ReplaceAll(got, "big.Lsh(call:math/big.NewInt(0x1),0x7f)", two127)
+		got = strings.ReplaceAll(got, "big.Lsh(0x1,0x7f)", two127)
 		if strings.HasPrefix(got, "add("+two127+",") {
 			got = "add(" + strings.TrimSuffix(strings.TrimPrefix(got, "add("+two127+","), ")") + "," + two127 + ")"
 		}
@@ -536,10 +537,15 @@ func c13XHatGeneral(f *ssa.Function, be *bigEnv) (zero, mask bool) {
 				return
 			}
 			op, boundV := cmp.Op, cmp.Y
-			if cmp.X != ssa.Value(p) {
-				if cmp.Y != ssa.Value(p) {
+			shiftK := int64(0) // the test may be on i+k: `i+16 < len(buf)`
+			if ta := affineOf(cmp.X); len(ta.coef) == 1 && ta.coef[p] == 1 {
+				shiftK = ta.k
+			} else {
+				tb := affineOf(cmp.Y)
+				if len(tb.coef) != 1 || tb.coef[p] != 1 {
 					return
 				}
+				shiftK = tb.k
 				boundV = cmp.X
 				switch op {
 				case token.LSS:
@@ -557,6 +563,7 @@ func c13XHatGeneral(f *ssa.Function, be *bigEnv) (zero, mask bool) {
 			if !ok1 || !ok2 {
 				return
 			}
+			bound = bound.add(linForm{k: shiftK, coef: map[string]int64{}}, -1)
 			var last linForm
 			switch {
 			case step == 1 && op == token.LSS:
@@ -578,10 +585,11 @@ func c13XHatGeneral(f *ssa.Function, be *bigEnv) (zero, mask bool) {
 			return
 		}
 		bo, ok := st.Val.(*ssa.BinOp)
-		if !ok || bo.Op != token.AND {
+		if !ok || (bo.Op != token.AND && bo.Op != token.AND_NOT) {
 			return
 		}
-		if k, isK := constInt(bo.Y); !isK || k != 0x7f {
+		// b & 0x7f, or b &^ 0x80
+		if k, isK := constInt(bo.Y); !isK || (bo.Op == token.AND && k != 0x7f) || (bo.Op == token.AND_NOT && k != 0x80) {
 			return
 		}
 		ld, isLd := bo.X.(*ssa.UnOp)
